@@ -1,7 +1,205 @@
-/- C05 property theorems (under construction) -/
+/-
+  C05 — a space follows an accepted candidate iff its value has no no-space suffix.
+  Theorems about the model of the pipeline (`Model/Pipeline.lean`) and of the formatters
+  (`Model/Shells.lean`); the model is bound to the code by the `value` correspondence.
+-/
 import Carapace.Model.Shells
 import Carapace.Spec.FmtOracle
+import Carapace.Lemmas.Sort
 
 namespace Carapace.Props.C05
+open Carapace Carapace.Model Carapace.Spec
+
+/-! ### the matcher -/
+
+/-- `Matches` is exactly: the set is `*`-like, or the value ends in one of the characters -/
+theorem matches_iff (sm : SuffixMatcher) (s : Str) :
+    SuffixMatcher.matchesStr sm s = true ↔ '*' ∈ sm ∨ ∃ c ∈ sm, s.getLast? = some c := by
+  simp only [SuffixMatcher.matchesStr, List.any_eq_true, Bool.or_eq_true, beq_iff_eq]
+  constructor
+  · rintro ⟨r, hr, h | h⟩
+    · exact Or.inl (h ▸ hr)
+    · exact Or.inr ⟨r, hr, h⟩
+  · rintro (h | ⟨c, hc, h⟩)
+    · exact ⟨'*', h, Or.inl rfl⟩
+    · exact ⟨c, hc, Or.inr h⟩
+
+/-- the model's decision coincides with the property's own wording (`Spec.wantsNospace`) -/
+theorem matches_eq_spec (sm : SuffixMatcher) (s : Str) :
+    SuffixMatcher.matchesStr sm s = wantsNospace sm s := by
+  apply Bool.eq_iff_iff.mpr
+  rw [matches_iff]
+  simp only [wantsNospace, Bool.or_eq_true, List.elem_eq_contains, List.contains_eq_mem, decide_eq_true_eq]
+  constructor
+  · rintro (h | ⟨c, hc, h⟩)
+    · exact Or.inl h
+    · right; rw [h]; simpa using hc
+  · rintro (h | h)
+    · exact Or.inl h
+    · right
+      cases hl : s.getLast? with
+      | none => simp [hl] at h
+      | some c => simp [hl] at h; exact ⟨c, h, rfl⟩
+
+/-- `*` is absorbing for `Add` -/
+theorem add_star (sm sfx : SuffixMatcher) (h : '*' ∈ sm ∨ '*' ∈ sfx) : SuffixMatcher.add sm sfx = ['*'] := by
+  unfold SuffixMatcher.add
+  have : (sm.elem '*' || sfx.elem '*') = true := by
+    rcases h with h | h <;> simp [h]
+  rw [if_pos this]
+
+/-- without `*`, `Add` is set union -/
+theorem mem_add (sm sfx : SuffixMatcher) (h : '*' ∉ sm ∧ '*' ∉ sfx) (c : Char) :
+    c ∈ SuffixMatcher.add sm sfx ↔ c ∈ sm ∨ c ∈ sfx := by
+  unfold SuffixMatcher.add
+  have : (sm.elem '*' || sfx.elem '*') = false := by simp [h.1, h.2]
+  rw [if_neg (by simpa using h)]
+  simp only [mem_sortBy, List.mem_append, List.mem_filter]
+  constructor
+  · rintro (h1 | ⟨h1, _⟩)
+    · exact Or.inl h1
+    · exact Or.inr h1
+  · rintro (h1 | h1)
+    · exact Or.inl h1
+    · by_cases hm : c ∈ sm
+      · exact Or.inl hm
+      · exact Or.inr ⟨h1, by simpa using hm⟩
+
+/-- anything matches `*` -/
+theorem matches_star (s : Str) : SuffixMatcher.matchesStr ['*'] s = true := by
+  simp [SuffixMatcher.matchesStr]
+
+/-! ### the effective set computed by the pipeline -/
+
+def exportS : Str := ['e', 'x', 'p', 'o', 'r', 't']
+theorem export_is_excepted : Gen.nospaceForcingExcept.elem exportS = true := by decide
+theorem only_export_is_excepted : Gen.nospaceForcingExcept = [exportS] := by decide
+
+/-- **C05 (export).** the `export` format carries the set itself, unchanged -/
+theorem C05_export (env : Env) (w : Str) (m : Meta) (vs : List RawValue) :
+    (pipeline exportS env w m vs).1.nospace = m.nospace := by
+  unfold pipeline
+  simp only [export_is_excepted, if_true]
+
+/-- **C05 (error entries force no-space).** when there are messages every value matches -/
+theorem C05_messages_force (sh : Str) (hsh : sh ≠ exportS) (env : Env) (w : Str) (m : Meta)
+    (vs : List RawValue) (hm : m.messages ≠ []) (s : Str) :
+    SuffixMatcher.matchesStr (pipeline sh env w m vs).1.nospace s = true := by
+  have h1 : Gen.nospaceForcingExcept.elem sh = false := by
+    rw [only_export_is_excepted]; simpa using hsh
+  have h2 : m.messages.isEmpty = false := by
+    cases hmm : m.messages with
+    | nil => exact absurd hmm hm
+    | cons _ _ => rfl
+  simp only [pipeline, h1, h2, Bool.false_eq_true, if_false, Bool.not_false, if_true]
+  rw [add_star _ _ (Or.inr (by simp))]
+  exact matches_star s
+
+/-- **C05 (CARAPACE_NOSPACE adds its characters).** -/
+theorem C05_env_adds (sh : Str) (hsh : sh ≠ exportS) (env : Env) (w : Str) (m : Meta)
+    (vs : List RawValue) (hm : m.messages = []) :
+    (pipeline sh env w m vs).1.nospace =
+      if env.nospaceEnv.isEmpty then m.nospace else SuffixMatcher.add m.nospace env.nospaceEnv := by
+  have h1 : Gen.nospaceForcingExcept.elem sh = false := by
+    rw [only_export_is_excepted]; simpa using hsh
+  simp only [pipeline, h1, hm, List.isEmpty_nil, Bool.not_true, Bool.false_eq_true, if_false]
+  cases env.nospaceEnv.isEmpty <;> simp
+
+/-! ### per-candidate formats: the decision is a function of the value, not of the quoting -/
+
+/-- elvish: `CodeSuffix` is empty iff the (sanitised) value matches -/
+theorem C05_elvish (m : Meta) (vs : List RawValue) :
+    (elvishRecs m vs).map (·.nospace) =
+      vs.map (fun v => some (SuffixMatcher.matchesStr m.nospace (san Gen.elvish_sanitizer v.value))) := by
+  simp [elvishRecs, List.map_map, Function.comp_def]
+
+/-- bash-ble: the suffix field is empty iff the value matches -/
+theorem C05_bashBle_line (m : Meta) (v : RawValue) :
+    bashBleFormat m [v] =
+      v.value ++ ['\t'] ++ v.display ++ fsS ++ fsS ++
+        (if SuffixMatcher.matchesStr m.nospace v.value then [] else [' ']) ++ fsS ++ v.trimmed := by
+  simp [bashBleFormat, Str.join]
+
+/-- nushell: the text is the quoted value followed by a blank iff the value does not match;
+    the decision is taken on the sanitised value *before* quoting -/
+theorem C05_nushell (m : Meta) (v : RawValue) :
+    ∃ q : Str, (nushellRecs m [v]).map (·.insert) =
+      [q ++ (if SuffixMatcher.matchesStr m.nospace (san Gen.nushell_sanitizer v.value) then [] else [' '])] := by
+  simp only [nushellRecs, List.map_cons, List.map_nil]
+  by_cases h : SuffixMatcher.matchesStr m.nospace (san Gen.nushell_sanitizer v.value) = true
+  · simp only [h, if_true, List.append_nil]
+    exact ⟨_, rfl⟩
+  · simp only [h, Bool.false_eq_true, if_false]
+    exact ⟨_, rfl⟩
+
+/-- powershell: likewise, decided on the sanitised value before quoting -/
+theorem C05_powershell (m : Meta) (v : RawValue) (hv : v.value ≠ []) :
+    ∃ q : Str, (powershellRecs m [v]).map (·.insert) =
+      [q ++ (if SuffixMatcher.matchesStr m.nospace (san Gen.powershell_sanitizer v.value) then [] else [' '])] := by
+  have : (!v.value.isEmpty) = true := by
+    cases hvv : v.value with
+    | nil => exact absurd hvv hv
+    | cons _ _ => rfl
+  simp only [powershellRecs, List.filter_cons, this, if_true, List.filter_nil, List.map_cons, List.map_nil]
+  by_cases h : SuffixMatcher.matchesStr m.nospace (san Gen.powershell_sanitizer v.value) = true
+  · simp only [h, if_true, List.append_nil]
+    exact ⟨_, rfl⟩
+  · simp only [h, Bool.false_eq_true, if_false]
+    exact ⟨_, rfl⟩
+
+/-- ion / cmd-clink / zsh / oil take the decision on the value as well (by unfolding) -/
+theorem C05_ion (m : Meta) (v : RawValue) :
+    ∃ d : Str, (ionRecs m [v]) =
+      [{ insert := san Gen.ion_sanitizer v.value ++
+          (if SuffixMatcher.matchesStr m.nospace (san Gen.ion_sanitizer v.value) then [] else [' ']), display := d }] := by
+  simp only [ionRecs, List.map_cons, List.map_nil]
+  by_cases h : SuffixMatcher.matchesStr m.nospace (san Gen.ion_sanitizer v.value) = true <;>
+  by_cases hd : (san Gen.ion_sanitizer v.description).isEmpty = true <;>
+  simp [h, hd]
+
+/-- zsh: in the FULL quoting states no blank is ever appended -/
+theorem C05_zsh_full (env : Env) (st : ZshState) (ns : SuffixMatcher) (v : Str)
+    (hst : st = .fullQuoting ∨ st = .fullQuotingEscaping) :
+    zshValueText env st ns v = zshInsert env st v := by
+  rcases hst with h | h <;> subst h <;> simp [zshValueText]
+
+/-- zsh, other states: a blank follows iff the value does not match -/
+theorem C05_zsh (env : Env) (st : ZshState) (ns : SuffixMatcher) (v : Str)
+    (hst : st ≠ .fullQuoting ∧ st ≠ .fullQuotingEscaping) :
+    zshValueText env st ns v =
+      zshInsert env st v ++ (if SuffixMatcher.matchesStr ns v then [] else [' ']) := by
+  cases st <;> simp_all [zshValueText] <;>
+  (by_cases hm : SuffixMatcher.matchesStr ns v = true <;> simp [hm])
+
+/-- **C05 (xonsh) is false of the pinned code**: the decision is taken on the *quoted* text.
+    `my dir/` with no-space `/` gets a blank. (finding `xonsh_nospace_after_quoting`) -/
+theorem C05_xonsh_counterexample :
+    (xonshRecs { nospace := ['/'] } [{ value := "my dir/".toList, display := [] }]).map (·.insert)
+      = ["'my dir/' ".toList] := by decide
+
+/-- xonsh, partial: a value that needs no quoting gets the right decision -/
+theorem C05_xonsh_partial (m : Meta) (v : RawValue)
+    (hq : Str.containsAny (san Gen.xonsh_sanitizer v.value) Gen.xonsh_ActionRawValues_containsAny = false) :
+    (xonshRecs m [v]).map (·.insert) =
+      [san Gen.xonsh_sanitizer v.value ++
+        (if SuffixMatcher.matchesStr m.nospace (san Gen.xonsh_sanitizer v.value) then [] else [' '])] := by
+  simp only [xonshRecs, List.map_cons, List.map_nil, hq, Bool.false_eq_true, if_false]
+  by_cases h : SuffixMatcher.matchesStr m.nospace (san Gen.xonsh_sanitizer v.value) = true <;> simp [h]
+
+/-! ### bash: the flag is global -/
+
+/-- exactly one candidate: the flag is the candidate's own decision -/
+theorem C05_bash_single (env : Env) (w : Str) (m : Meta) (v : RawValue) :
+    ∃ t : Str, bashFormat env w m [v] =
+      boolStr (SuffixMatcher.matchesStr m.nospace (Str.trimPrefix v.value env.bashPrefix)) ++ [Char.ofNat 1] ++ t := by
+  simp [bashFormat, commonStep, Str.join]
+
+/-- whenever the common-prefix step is taken the flag is set -/
+theorem C05_bash_common_prefix (lastSegment dflt : Str) (vs : List RawValue) (ns : SuffixMatcher)
+    (h : (commonStep lastSegment dflt vs).2 = true) (s : Str) :
+    SuffixMatcher.matchesStr (if (commonStep lastSegment dflt vs).2 then SuffixMatcher.add ns ['*'] else ns) s = true := by
+  simp only [h, if_true]
+  rw [add_star _ _ (Or.inr (by simp))]
+  exact matches_star s
 
 end Carapace.Props.C05
